@@ -1,4 +1,5 @@
 #include "sbh_common.hpp"
+#include <cerrno>
 #include <fcntl.h>
 #include <sys/mman.h>
 
@@ -129,6 +130,9 @@ bool dispatch(const Toks& t, std::string& out)
     auto it = table().find(t[1]);
     if (it == table().end())
         return false;
+    // errno holds whatever an earlier, unrelated call of the process left there: a library call must not read it without
+    // having made a failing system call itself
+    errno = ENOENT;
     it->second(t, out);
     return true;
 }
